@@ -513,4 +513,52 @@ def sliceSeq {α : Type} (xs : List α) (lo hi : Option Int) : List α :=
   let b := match hi with | none => xs.length | some i => sliceIdx xs.length i
   (xs.take b).drop a
 
+/-! ## w5-smallsrc: descriptor objects of template building (`tables.py _descriptors_from_ids_iter`, C14) -/
+namespace Small
+
+/-- a BUFR descriptor object as template building sees it, by value.  `ε`: what Table B holds for a defined element
+    (an `ElementDescriptor` with its fields; the builder only stores it).  A replication descriptor is created by
+    `TableR.lookup` without factor and members, which are assigned afterwards (`descriptor.factor = …`,
+    `descriptor.members = …`): `setFactor` / `setMembers`.  **By value**: a `SequenceDescriptor` returned by
+    `TableD.lookup` is one shared object in Python; as long as nobody mutates it after the tables are loaded, sharing
+    cannot be observed (the assumption under which the tree below stands for the object graph). -/
+inductive Descr (ε : Type) where
+  | elem (e : ε)                                   -- ElementDescriptor found in Table B
+  | undefElem (id : Int)                           -- UndefinedElementDescriptor(id)
+  | op (id : Int)                                  -- OperatorDescriptor(id)
+  | seq (id : Int) (members : List (Descr ε))      -- SequenceDescriptor found in Table D
+  | undefSeq (id : Int)                            -- UndefinedSequenceDescriptor(id)
+  | fixedRep (id : Int) (members : List (Descr ε)) -- FixedReplicationDescriptor
+  | delayedRep (id : Int) (factor : Option (Descr ε)) (members : List (Descr ε))  -- DelayedReplicationDescriptor
+
+/-- `descriptor.id` of a replication descriptor (0 for the other classes, whose id the builder never reads) -/
+def Descr.id {ε : Type} : Descr ε → Int
+  | .fixedRep i _ => i
+  | .delayedRep i _ _ => i
+  | .seq i _ => i
+  | .undefElem i => i
+  | .undefSeq i => i
+  | .op i => i
+  | .elem _ => 0
+
+/-- `isinstance(descriptor, DelayedReplicationDescriptor)` -/
+def Descr.isDelayed {ε : Type} : Descr ε → Bool
+  | .delayedRep _ _ _ => true
+  | _ => false
+
+/-- `descriptor.factor = f` (only executed for a delayed replication descriptor) -/
+def Descr.setFactor {ε : Type} (d : Descr ε) (f : Descr ε) : Descr ε :=
+  match d with
+  | .delayedRep i _ ms => .delayedRep i (some f) ms
+  | d => d
+
+/-- `descriptor.members = ms` (only executed for a replication descriptor) -/
+def Descr.setMembers {ε : Type} (d : Descr ε) (ms : List (Descr ε)) : Descr ε :=
+  match d with
+  | .fixedRep i _ => .fixedRep i ms
+  | .delayedRep i f _ => .delayedRep i f ms
+  | d => d
+
+end Small
+
 end Py
